@@ -1993,6 +1993,37 @@ func (ts *TokenStore) revokeOrphan(ctx context.Context, id string) error {
 	return ts.revokeInternal(ctx, saltedID, false)
 }
 
+// lookupForRevocation resolves a token that an API caller asked to revoke. Like
+// Lookup it returns nil for a token that does not exist or whose revocation is
+// being carried out right now, but it does return an entry that is merely
+// marked revocation-pending: that mark is also what an earlier revocation
+// leaves behind when it was interrupted (storage error, restart), and such a
+// token still has its leases and its cubbyhole. Treating it as "already gone"
+// would report success without ever finishing the revocation.
+func (ts *TokenStore) lookupForRevocation(ctx context.Context, id string) (*logical.TokenEntry, error) {
+	te, err := ts.lookupTainted(ctx, id)
+	if err != nil || te == nil || te.NumUses != tokenRevocationPending {
+		return te, err
+	}
+
+	tokenNS, err := ts.core.NamespaceByID(ctx, te.NamespaceID)
+	if err != nil {
+		return nil, err
+	}
+	if tokenNS == nil {
+		return nil, namespace.ErrNoNamespace
+	}
+	saltedID, err := ts.SaltID(namespace.ContextWithNamespace(ctx, tokenNS), te.ID)
+	if err != nil {
+		return nil, err
+	}
+	if state, ok := ts.tokensPendingDeletion.Load(saltedID); ok && state == true {
+		// Another revocation of this token is in flight; leave it to finish.
+		return nil, nil
+	}
+	return te, nil
+}
+
 // revokeInternal is used to invalidate a given salted token, any child tokens
 // will be orphaned unless otherwise specified. skipOrphan should be used
 // whenever we are revoking the entire tree starting from a particular parent
@@ -2786,7 +2817,7 @@ func (ts *TokenStore) handleUpdateRevokeAccessor(ctx context.Context, req *logic
 		return resp, nil
 	}
 
-	te, err := ts.Lookup(ctx, aEntry.TokenID)
+	te, err := ts.lookupForRevocation(ctx, aEntry.TokenID)
 	if err != nil {
 		return nil, err
 	}
@@ -3220,7 +3251,7 @@ func (ts *TokenStore) handleRevokeTree(ctx context.Context, req *logical.Request
 }
 
 func (ts *TokenStore) revokeCommon(ctx context.Context, req *logical.Request, data *framework.FieldData, id string) (*logical.Response, error) {
-	te, err := ts.Lookup(ctx, id)
+	te, err := ts.lookupForRevocation(ctx, id)
 	if err != nil {
 		return nil, err
 	}
